@@ -25,7 +25,7 @@ CONFIG = {
              'build_file calls judged; distinct_nontrivial = distinct (ancestor states, target state, mode, caught, '
              'fault position class)'),
     'exhaustive_layer': 'depth<=3 product of ancestor states x target states x modes x caught, incl. one fault run per mkdir/rename event',
-    'gates': ['exc_class_cases', 'nested_cases', 'mode:swallow', 'combos', 'fault_runs', 'fault_mkdir', 'fault_rename', 'mode:ok', 'mode:raise_before',
+    'gates': ['prefix_sibling_combos', 'exc_class_cases', 'nested_cases', 'mode:swallow', 'combos', 'fault_runs', 'fault_mkdir', 'fault_rename', 'mode:ok', 'mode:raise_before',
               'mode:raise_after', 'mode:nocreate', 'mode:nonjson', 'setup_failures', 'caught', 'uncaught'],
 }
 
@@ -64,8 +64,11 @@ def name_for(state, i):
     return 'abc'[i % 3]
 
 
-def build_case(anc, tgt, mode, catch):
-    """returns (setup_pre, prior_program_body, setup_post, program, target_rel)"""
+def build_case(anc, tgt, mode, catch, sibling=False):
+    """returns (setup_pre, prior_program_body, setup_post, program, target_rel)
+    sibling: a reused output of the previous build lives in a directory whose name has the first
+    path component as a proper string prefix (a / a.old): both directories sit in the same removal
+    lists, and the longer-named one can legitimately not be removed"""
     comps = [name_for(s, i) for i, s in enumerate(anc)]
     paths = ['/'.join(comps[:i + 1]) for i in range(len(comps))]
     # 'n256name': the target's own name is one byte too long for the file system, so the
@@ -116,6 +119,10 @@ def build_case(anc, tgt, mode, catch):
         probes += [['q', 'is_dir', p, 'M'], ['q', 'exists', p, 'M'], ['q', 'list_dir', p, 'M']]
     probes += [['q', 'walk', '', 'M']]
     main = [['q', 'exists', target, 'M'], ['bf', target, 'F', {'catch': catch}]] + probes
+    if sibling and comps and len(comps[0]) < 200:
+        keep = ['bf', comps[0] + '.old/keep', 'G', {'catch': False}]
+        prior = [list(keep)] + prior
+        main = [list(keep)] + main
     program = {'funcs': funcs, 'roots': [prior, main]}
     return pre, post, program, target, bool(prior)
 
@@ -140,7 +147,10 @@ def judge(sh, w, program, sr, tag):
 
 
 def run_combo(sh, anc, tgt, mode, catch, rng, fault_all=True):
-    pre, post, program, target, has_prior = build_case(anc, tgt, mode, catch)
+    sibling = rng.random() < 0.4
+    pre, post, program, target, has_prior = build_case(anc, tgt, mode, catch, sibling)
+    if sibling:
+        sh.count('prefix_sibling_combos')
     with Scratch('b') as sc:
         w = World(sc, 'k/cache.gz' if rng.random() < 0.2 else 'cache.gz')
         apply_ext(w, pre)
@@ -177,6 +187,8 @@ def run_combo(sh, anc, tgt, mode, catch, rng, fault_all=True):
                    and e.get('realistic', True)]
             for k in range(1, len(evs) + 1):
                 ev = evs[k - 1]
+                if sibling and any('.old' in p for p in ev['paths']):
+                    continue    # an event of the decoration call, not of the call under test
                 # renames into the backup area that happen after setup (none today) would not be setup faults
                 w.restore(tok, keep=True)
                 opts = {'fault': {'k': k, 'kinds': ['os.mkdir', 'os.rename'], 'phases': ['root'],
